@@ -23,7 +23,8 @@ def canon_box(b):
     k = b["k"]
     if k == "box":
         return ("box", b["name"], specs.skey_ty(b["dom"]),
-                specs.skey_ty(b["cod"]), bool(b.get("dag")), b.get("data"))
+                specs.skey_ty(b["cod"]), bool(b.get("dag")), b.get("data"),
+                bool(b.get("word")))
     return (k, tuple(b["l"]), tuple(b["r"]))
 
 
@@ -109,7 +110,7 @@ def mutants(draw, spec):
         i = draw(st.sampled_from(boxes))
         b = dict(layers[i][0])
         if kind == "box-name":
-            b["name"] = draw(NAMES)
+            b["name"] = str(draw(NAMES)) if b.get("word") else draw(NAMES)
         elif kind == "data":
             b["data"] = draw(gen.payloads())
         elif b["dom"] == b["cod"]:
@@ -148,7 +149,10 @@ def rename_boxes(draw, spec):
             key = (b["name"], str(b["dom"] if not b.get("dag") else b["cod"]))
             if key not in table:
                 table[key] = draw(NAMES)
-            b = dict(b, name=table[key])
+            name = table[key]
+            if b.get("word"):   # grammar words are named by strings
+                name = str(name)
+            b = dict(b, name=name)
         layers.append([b, off])
     return dict(spec, layers=layers)
 
@@ -220,6 +224,12 @@ def namespace(cls):
     for module in {"cat": [cat], "monoidal": [cat, monoidal],
                    "rigid": [cat, monoidal, specs.mod("rigid")]}[cls]:
         space.update(vars(module))
+    if cls == "rigid":
+        from discopy.grammar.pregroup import Word
+        space["Word"] = Word
+    elif cls == "monoidal":
+        from discopy.grammar.cfg import Word
+        space["Word"] = Word
     return space
 
 
